@@ -163,7 +163,7 @@ enum RK {
 };
 extern const char *rk_names[];
 
-enum Forge { FG_WRONGID = 0, FG_WRONGNAME, FG_WRONGTYPE, FG_WRONGCLASS, FG_CASEFLIP, FG_WRONGSRC, FG_OTHERSOCK, FG_NOCOOKIE, FG_BADCLIENTCOOKIE, FG_WRONGSRC_FRAMED, FG_NKINDS };
+enum Forge { FG_WRONGID = 0, FG_WRONGNAME, FG_WRONGTYPE, FG_WRONGCLASS, FG_CASEFLIP, FG_WRONGSRC, FG_OTHERSOCK, FG_NOCOOKIE, FG_BADCLIENTCOOKIE, FG_WRONGSRC_FRAMED, FG_NOCOOKIE_TC, FG_NKINDS };
 extern const char *fg_names[];
 
 enum FaultSite { FS_SOCKET = 0, FS_SETSOCKOPT, FS_BIND, FS_CONNECT, FS_GETSOCKNAME, FS_SEND_REFUSED, FS_SEND_WOULDBLOCK, FS_SEND_SHORT, FS_RECV_RESET, FS_SEND_EINTR, FS_RECV_EINTR, FS_SEND_ENOBUFS, FS_SOCKET_EAGAIN, FS_NSITES };
@@ -326,6 +326,14 @@ struct World {
     long seq;
     int  server, fd;
   };
+  // deferred-write mode: the state of the reference tables when the library announced pending data (= when the frame's
+  // server was decided); consumed by the first frame flushed afterwards
+  long    last_close_seq = 0;
+  bool    pw_valid = false;
+  int     pw_tx = -1;
+  long    pw_seq = 0;
+  int     pw_ref_fail[8] = { 0 }, pw_order[8] = { 0 }, pw_norder = 0;
+  int64_t pw_last_fail[8] = { 0 };
   std::vector<NetFail> net_fails; // injected socket failures the library must count against a server (-1: server unknown)
   std::vector<int> flush_evs; // event indexes of reinit / server membership changes (the cache must be empty after each)
   bool        nested_cb = false;
